@@ -42,7 +42,7 @@ theorem get_descriptors_eq (mask : Nat) (refs : List CellInfo) (exotic : Bool) (
     get_descriptors mask (self_refs := refs) (self_is_exotic := exotic) (self_bits := bits) =
       descriptors refs.length exotic bits.length mask := by
   unfold get_descriptors get_refs_descriptor get_bits_descriptor descriptors
-  cases exotic <;> simp <;> rfl
+  cases exotic <;> simp <;> first | rfl | grind
 
 /-- `child.get_depth(l)` on a constructed cell = the model's `getDepth` -/
 theorem get_depth_eq (l : Nat) (c : CellInfo) :
@@ -138,12 +138,14 @@ theorem calculate_hashes_eq (H : Bytes → Bytes) (mask : Nat) (kind : Int) (ref
     have hgI : hi ≠ off → Py.getI? hs ((hi : Int) - (off : Int) - 1) = hs[hi - off - 1]? :=
       fun h => getI_nonneg _ _ _ (by omega)
     have hI : ((hi : Int) = (off : Int)) = (hi = off) := propext Int.natCast_inj
+    have hI2 : ((hi : Int) - (off : Int) = 0) = (hi = off) := propext ⟨fun h => by omega, fun h => by omega⟩
+    have hI3 : ((off : Int) = (hi : Int)) = (hi = off) := propext ⟨fun h => by omega, fun h => by omega⟩
     by_cases hm : isMerkle kind = true
     · have hm' := eq_true hm
       by_cases heq : hi = off <;> (first | have heq' := eq_false heq | have heq' := eq_true heq) <;>
       by_cases h0 : li = 0 <;> (first | have h0' := eq_false h0 | have h0' := eq_true h0) <;>
       by_cases hp : kind = 1 <;> (first | have hp' := eq_false hp | have hp' := eq_true hp) <;>
-      simp only [hM, hm', hI, heq', h0', hp', hgI, kPruned, Option.bind_some, ne_eq, not_true_eq_false, not_false_eq_true, and_true, and_false,
+      simp only [hM, hm', hI, hI2, hI3, heq', h0', hp', hgI, kPruned, Option.bind_some, ne_eq, not_true_eq_false, not_false_eq_true, and_true, and_false,
         true_and, false_and, or_true, or_false, true_or, false_or, if_true, if_false, Option.bind_none, Bool.and_false, Bool.false_and,
         Bool.and_true, Bool.true_and, Bool.or_true, Bool.or_false, Bool.true_or, Bool.false_or, Bool.false_eq_true, Option.map_none, Option.bind_eq_bind, Option.pure_def,
         beq_iff_eq, bne_iff_ne, decide_true, decide_false, Bool.and_eq_true, Bool.or_eq_true, reduceCtorEq]
@@ -153,7 +155,7 @@ theorem calculate_hashes_eq (H : Bytes → Bytes) (mask : Nat) (kind : Int) (ref
       by_cases heq : hi = off <;> (first | have heq' := eq_false heq | have heq' := eq_true heq) <;>
       by_cases h0 : li = 0 <;> (first | have h0' := eq_false h0 | have h0' := eq_true h0) <;>
       by_cases hp : kind = 1 <;> (first | have hp' := eq_false hp | have hp' := eq_true hp) <;>
-      simp only [hM, hm', hI, heq', h0', hp', hgI, kPruned, Option.bind_some, ne_eq, not_true_eq_false, not_false_eq_true, and_true, and_false,
+      simp only [hM, hm', hI, hI2, hI3, heq', h0', hp', hgI, kPruned, Option.bind_some, ne_eq, not_true_eq_false, not_false_eq_true, and_true, and_false,
         true_and, false_and, or_true, or_false, true_or, false_or, if_true, if_false, Option.bind_none, Bool.and_false, Bool.false_and,
         Bool.and_true, Bool.true_and, Bool.or_true, Bool.or_false, Bool.true_or, Bool.false_or, Bool.false_eq_true, Option.map_none, Option.bind_eq_bind, Option.pure_def,
         beq_iff_eq, bne_iff_ne, decide_true, decide_false, Bool.and_eq_true, Bool.or_eq_true, reduceCtorEq]
@@ -170,7 +172,7 @@ theorem src_construct_eq_model (H : Bytes → Bytes) (kind : Int) (bits : Bits) 
   cases resolveMask kind bits refs with
   | none => simp
   | some mask =>
-    simp only [Option.bind_some, calculate_hashes_eq, get_descriptors_eq, get_data_bytes_eq, getI_neg_one, Option.bind_eq_bind, Option.pure_def]
+    simp only [Option.bind_some, calculate_hashes_eq, get_descriptors_eq, get_data_bytes_eq, getI_neg_one, getI_length_sub_one, Option.bind_eq_bind, Option.pure_def]
     have hex : decide (kind ≠ -1) = (kind != kOrdinary) := by by_cases h : kind = -1 <;> simp [h, kOrdinary]
     rw [hex]
     generalize List.foldlM (hashStep H kind bits refs mask _) _ _ = r
